@@ -30,6 +30,8 @@ func TestVerif(t *testing.T) {
 		verifQueue(p, r)
 	case "C14.loop":
 		verifLoop(p, r)
+	case "C14.reactive":
+		verifReactive(p, r)
 	case "C14.concurrent":
 		verifConcurrent(p, r)
 	default:
